@@ -45,7 +45,8 @@ int64_t nv_succ_other;    /* position of `other` of the most recent try_merge if
 int64_t nv_kept_pos;      /* position of the owner's slot after remove_if (-1: it was removed) */
 struct nv_wl* nv_rm_result; _Bool nv_rm_called, nv_erase_called;
 
-/* ASSUMED contract of the virtual wlearner_t::try_merge(other) (include/nano/wlearner.h: "returns true if it is possible
+/* Contract of the virtual wlearner_t::try_merge(other), PROVED for every implementation in trymerge.h (targets base_try_merge,
+ * sfw_do_try_merge, table_try_merge, affine_try_merge; only the virtual dispatch is assumed) (include/nano/wlearner.h: "returns true if it is possible
  * to merge in-place ... so that the merged weak learner is equivalent with the sum of the two"): on success *this now
  * also contains whatever `other` contained; every implementation returns false for a null `other` (dynamic_cast of
  * nullptr in table.cpp / affine.cpp, constant false in wlearner.cpp).  Checked here: called through a non-null slot,
